@@ -1,24 +1,33 @@
 """C07 -- DEX parsing does not depend on the order of the map list.
 
 Static conditions that make the parse a function of the *set* of map entries:
-(1) single sorted parse loop: MapItem.parse() is called only from MapList.__init__,
-    on the loop variable of a loop over sorted(<all map items>, key=K) where
-    K(mi) = load_order[<type of mi>] and load_order is the value of
-    TypeMapItem.determine_load_order().  That function is closed (no inputs): it is
-    folded by the checker's own evaluator; its result must be total over the 21
-    map types, injective, and a topological order of _get_dependencies()
-    (acyclic, total);  the item is registered under its own type in the same loop;
-(2) cursor independence: for every map type, MapItem.parse() positions the
-    stream with a seek whose target is a function of the entry's own offset field
-    only, immediately before constructing the item; map entries themselves are
-    read at a fixed 12-byte stride independent of what the entry constructor consumed;
+(1) load order: TypeMapItem._get_dependencies() and determine_load_order() are closed
+    functions (no inputs): they are folded by the checker's own evaluator (module
+    constants, helper functions, comprehensions, next(), for/else ... are followed) and the
+    *result* is judged: total over the 21 map types, dependencies acyclic, ranks
+    injective and topological.
+    parse order / registration / entry isolation: MapList.__init__ is executed abstractly on
+    map lists of three entries of distinct types in all six orders (two triples): the
+    sequence of MapItem.parse() calls must be the load order for every permutation, each
+    parsed entry is registered once under its own type before the next parse, and the
+    state of an entry when its parse() starts must be the same in every permutation
+    (byte sources re-based to the entry's start): nothing that depends on the position
+    or the neighbours of an entry reaches its parse.  MapItem.parse() has no other
+    call site than MapList.__init__ and the helpers it calls on self;
+(2) cursor independence: for every map type, MapItem.parse() (run with an unknown
+    stream cursor) positions the stream with a seek whose target is a function of the
+    entry's own offset field only, immediately before constructing the item; map
+    entries are read at a fixed 12-byte stride independent of what the entry constructor consumed;
 (3) no parse-time function reads the map item list; get_item_type selects by
     type; ClassManager.add_type_item stores by type / offset keys (the
     registration-order list is read only by get_next_offset_item and is recorded);
 (4) dependency soundness: for each type T the map sections read at parse time
-    (call-graph closure of the constructors chosen in T's branch down to the
-    ClassManager accessors, each accessor mapped to the section it indexes) are
+    (typed call-graph closure of the constructors chosen in T's branch down to the
+    ClassManager accessors; getattr dispatch through constant tables is followed) are
     contained in the transitive closure of _get_dependencies()[T].
+A violation is reported only for a positively established fact (a concrete parse
+sequence, a concrete differing attribute value, a resolved call path); opaque values
+and unknown shapes give exit 2.
 Not decided: map lists that contain the same type twice (sorted() is stable).
 """
 from __future__ import annotations
@@ -58,33 +67,92 @@ class FoldRaise(Exception):
         self.node, self.text = node, text
 
 
+class _FuncRef:
+    def __init__(self, f):
+        self.f = f
+
+
+class _Closure:
+    def __init__(self, node, env):
+        self.node, self.env = node, env
+
+
+class _EnumCls:
+    pass
+
+
 class ClosedFold:
-    def __init__(self, module, members, enum_name, funcs, budget=200000):
+    """concrete evaluator for closed builder code: no I/O, values are ints / strings / enum members / tuples / lists / dicts /
+    sets / sentinels; module-level constants and module-level or static helper functions (with parameters) are followed."""
+
+    def __init__(self, module, members, enum_name, funcs, budget=400000):
         self.module, self.members, self.enum_name, self.funcs = module, members, enum_name, funcs
         self.budget = budget
+        self.enumcls = _EnumCls()
+        self._consts = {}
+        self.depth = 0
 
     def out(self, node, what):
         raise AnalysisError("%s:%d: %s is outside the closed-function fragment: %s" % (
             self.module.relpath, getattr(node, "lineno", 0), what, ast.unparse(node)[:80]))
 
-    def call(self, func):
-        if func.params():
-            self.out(func.node, "function with parameters")
-        env = {}
+    def tick(self):
+        self.budget -= 1
+        if self.budget < 0:
+            raise AnalysisError("closed-function fold: step budget exhausted (non-terminating loop?)")
+
+    def call(self, func, args=()):
+        return self.call_node(func.node, list(args), {})
+
+    def call_node(self, node, args, captured):
+        self.depth += 1
+        if self.depth > 40:
+            raise AnalysisError("closed-function fold: recursion too deep")
+        a = node.args
+        params = [x.arg for x in a.posonlyargs + a.args]
+        if a.vararg or a.kwarg or a.kwonlyargs:
+            self.out(node, "signature")
+        env = dict(captured)
+        defaults = list(a.defaults)
+        for i, p in enumerate(params):
+            if i < len(args):
+                env[p] = args[i]
+            else:
+                di = i - (len(params) - len(defaults))
+                if 0 <= di < len(defaults):
+                    env[p] = self.ev(defaults[di], {})
+                else:
+                    self.out(node, "missing argument %s" % p)
+        if len(args) > len(params):
+            self.out(node, "too many arguments")
         try:
-            self.block(func.node.body, env)
+            if isinstance(node, ast.Lambda):
+                return self.ev(node.body, env)
+            self.block(node.body, env)
         except _Ret as r:
             return r.v
+        finally:
+            self.depth -= 1
         return None
 
     def block(self, stmts, env):
         for s in stmts:
             self.stmt(s, env)
 
+    def iterate(self, it, node):
+        if isinstance(it, dict):
+            return list(it.keys())
+        if isinstance(it, (set, frozenset)):
+            try:
+                return sorted(it, key=int)
+            except Exception:
+                self.out(node, "iteration over a set of non-integers")
+        if isinstance(it, (list, tuple, range, str)):
+            return list(it)
+        self.out(node, "iteration")
+
     def stmt(self, s, env):
-        self.budget -= 1
-        if self.budget < 0:
-            raise AnalysisError("closed-function fold: step budget exhausted (non-terminating loop?)")
+        self.tick()
         if isinstance(s, ast.Expr):
             if not isinstance(s.value, ast.Constant):
                 self.ev(s.value, env)
@@ -92,6 +160,9 @@ class ClosedFold:
             v = self.ev(s.value, env)
             for t in s.targets:
                 self.assign(t, v, env)
+        elif isinstance(s, ast.AnnAssign):
+            if s.value is not None:
+                self.assign(s.target, self.ev(s.value, env), env)
         elif isinstance(s, ast.AugAssign):
             cur = self.ev(ast.copy_location(_as_load(s.target), s.target), env)
             v = self.binop(s.op, cur, self.ev(s.value, env), s)
@@ -100,9 +171,7 @@ class ClosedFold:
             self.block(s.body if self.ev(s.test, env) else s.orelse, env)
         elif isinstance(s, ast.While):
             while self.ev(s.test, env):
-                self.budget -= 1
-                if self.budget < 0:
-                    raise AnalysisError("closed-function fold: step budget exhausted (non-terminating loop?)")
+                self.tick()
                 try:
                     self.block(s.body, env)
                 except _Brk:
@@ -112,13 +181,8 @@ class ClosedFold:
             else:
                 self.block(s.orelse, env)
         elif isinstance(s, ast.For):
-            it = self.ev(s.iter, env)
-            if isinstance(it, dict):
-                it = list(it.keys())
-            elif isinstance(it, (set, frozenset)):
-                it = sorted(it, key=int)
             broke = False
-            for x in list(it):
+            for x in self.iterate(self.ev(s.iter, env), s.iter):
                 self.assign(s.target, x, env)
                 try:
                     self.block(s.body, env)
@@ -142,6 +206,29 @@ class ClosedFold:
         elif isinstance(s, ast.Assert):
             if not self.ev(s.test, env):
                 raise FoldRaise(s, ast.unparse(s)[:100])
+        elif isinstance(s, ast.Delete):
+            for t in s.targets:
+                if isinstance(t, ast.Subscript):
+                    o = self.ev(t.value, env)
+                    try:
+                        del o[self.ev(t.slice, env)]
+                    except Exception as ex:
+                        raise FoldRaise(s, "%s: %s" % (type(ex).__name__, ex))
+                elif isinstance(t, ast.Name):
+                    env.pop(t.id, None)
+                else:
+                    self.out(s, "del target")
+        elif isinstance(s, ast.FunctionDef):
+            env[s.name] = _Closure(s, env)
+        elif isinstance(s, ast.Try):
+            try:
+                self.block(s.body, env)
+            except FoldRaise as r:
+                if not s.handlers:
+                    raise
+                self.out(s, "exception handling")
+            self.block(s.orelse, env)
+            self.block(s.finalbody, env)
         else:
             self.out(s, "statement")
 
@@ -172,10 +259,42 @@ class ClosedFold:
         except Exception as ex:
             self.out(node, "operation (%s)" % ex)
 
+    def global_name(self, e):
+        name = e.id
+        if name == self.enum_name:
+            return self.enumcls
+        if name in self._consts:
+            return self._consts[name]
+        if name in self.module.assigns:
+            self._consts[name] = v = self.ev(self.module.assigns[name], {})
+            return v
+        f = self.module.functions.get(name)
+        if f is not None and f.cls is None:
+            return _FuncRef(f)
+        self.out(e, "free name")
+
+    def comp(self, e, env):
+        out = []
+
+        def rec(gi, env2):
+            if gi == len(e.generators):
+                if isinstance(e, ast.DictComp):
+                    out.append((self.ev(e.key, env2), self.ev(e.value, env2)))
+                else:
+                    out.append(self.ev(e.elt, env2))
+                return
+            g = e.generators[gi]
+            for x in self.iterate(self.ev(g.iter, env2), g.iter):
+                self.tick()
+                env3 = dict(env2)
+                self.assign(g.target, x, env3)
+                if all(self.ev(c, env3) for c in g.ifs):
+                    rec(gi + 1, env3)
+        rec(0, env)
+        return out
+
     def ev(self, e, env):
-        self.budget -= 1
-        if self.budget < 0:
-            raise AnalysisError("closed-function fold: step budget exhausted")
+        self.tick()
         if isinstance(e, ast.Constant):
             return e.value
         if isinstance(e, ast.Name):
@@ -183,11 +302,16 @@ class ClosedFold:
                 return env[e.id]
             if e.id in ("True", "False", "None"):
                 return {"True": True, "False": False, "None": None}[e.id]
-            self.out(e, "free name")
+            return self.global_name(e)
         if isinstance(e, ast.Attribute):
-            d = dotted(e)
-            if d and d.startswith(self.enum_name + ".") and d.split(".", 1)[1] in self.members:
-                return self.members[d.split(".", 1)[1]]
+            base = self.ev(e.value, env) if not (isinstance(e.value, ast.Name) and e.value.id == self.enum_name and e.value.id not in env) else self.enumcls
+            if base is self.enumcls:
+                if e.attr in self.members:
+                    return self.members[e.attr]
+                if e.attr in self.funcs:
+                    return _FuncRef(self.funcs[e.attr])
+            if isinstance(base, (dict, set, list)) :
+                return ("bound", base, e.attr)
             self.out(e, "attribute")
         if isinstance(e, (ast.Tuple, ast.List)):
             vs = [self.ev(x, env) for x in e.elts]
@@ -220,39 +344,40 @@ class ClosedFold:
             left = self.ev(e.left, env)
             for op, c in zip(e.ops, e.comparators):
                 right = self.ev(c, env)
-                r = self.cmp(op, left, right, e)
-                if not r:
+                if not self.cmp(op, left, right, e):
                     return False
                 left = right
             return True
         if isinstance(e, ast.Subscript):
             o = self.ev(e.value, env)
-            k = self.ev(e.slice, env) if not isinstance(e.slice, ast.Slice) else self.out(e, "slice")
+            if isinstance(e.slice, ast.Slice):
+                lo = self.ev(e.slice.lower, env) if e.slice.lower else None
+                hi = self.ev(e.slice.upper, env) if e.slice.upper else None
+                return o[lo:hi]
+            k = self.ev(e.slice, env)
             try:
                 return o[k]
             except Exception as ex:
                 raise FoldRaise(e, "%s: %s" % (type(ex).__name__, ex))
-        if isinstance(e, (ast.ListComp, ast.SetComp, ast.GeneratorExp)):
-            if len(e.generators) != 1:
-                self.out(e, "comprehension")
-            g = e.generators[0]
-            it = self.ev(g.iter, env)
-            if isinstance(it, (set, frozenset)):
-                it = sorted(it, key=int)
-            out = []
-            for x in list(it):
-                env2 = dict(env)
-                self.assign(g.target, x, env2)
-                if all(self.ev(c, env2) for c in g.ifs):
-                    out.append(self.ev(e.elt, env2))
-            return set(out) if isinstance(e, ast.SetComp) else out
+        if isinstance(e, (ast.ListComp, ast.GeneratorExp)):
+            return self.comp(e, env)
+        if isinstance(e, ast.SetComp):
+            return set(self.comp(e, env))
+        if isinstance(e, ast.DictComp):
+            return dict(self.comp(e, env))
+        if isinstance(e, ast.Lambda):
+            return _Closure(e, env)
+        if isinstance(e, ast.NamedExpr):
+            v = self.ev(e.value, env)
+            self.assign(e.target, v, env)
+            return v
         if isinstance(e, ast.Call):
             return self.callx(e, env)
         self.out(e, "expression")
 
     def cmp(self, op, a, b, node):
         if isinstance(op, ast.Is):
-            return a is b or (isinstance(a, (bool, type(None))) and a == b and type(a) == type(b))
+            return a is b or (isinstance(a, (bool, type(None))) and isinstance(b, (bool, type(None))) and a == b and type(a) == type(b))
         if isinstance(op, ast.IsNot):
             return not self.cmp(ast.Is(), a, b, node)
         if isinstance(op, ast.Eq):
@@ -269,13 +394,58 @@ class ClosedFold:
             return tbl[type(op)](a, b)
         self.out(node, "comparison")
 
+    def apply(self, fv, args, node):
+        if isinstance(fv, _FuncRef):
+            return self.call_node(fv.f.node, args, {})
+        if isinstance(fv, _Closure):
+            return self.call_node(fv.node, args, fv.env)
+        if isinstance(fv, tuple) and fv and fv[0] == "bound":
+            return self.method(fv[1], fv[2], args, node)
+        self.out(node, "callable")
+
+    def method(self, o, m, args, e):
+        if isinstance(o, dict) and m in ("items", "keys", "values", "pop", "get", "copy", "popitem", "setdefault", "__getitem__", "update"):
+            if m == "items":
+                return list(o.items())
+            if m == "keys":
+                return list(o.keys())
+            if m == "values":
+                return list(o.values())
+            if m == "copy":
+                return dict(o)
+            try:
+                return getattr(o, m)(*args)
+            except KeyError as ex:
+                raise FoldRaise(e, "KeyError: %s" % ex)
+        if isinstance(o, (set, frozenset)) and m in ("discard", "remove", "add", "copy", "issubset", "union", "difference", "update", "isdisjoint", "difference_update"):
+            try:
+                return getattr(o, m)(*args)
+            except KeyError as ex:
+                raise FoldRaise(e, "KeyError: %s" % ex)
+        if isinstance(o, list) and m in ("append", "extend", "pop", "index", "remove", "insert", "__getitem__", "copy"):
+            try:
+                return getattr(o, m)(*args)
+            except (ValueError, IndexError) as ex:
+                raise FoldRaise(e, "%s: %s" % (type(ex).__name__, ex))
+        if isinstance(o, tuple) and m in ("index", "count", "__getitem__"):
+            return getattr(o, m)(*args)
+        self.out(e, "method call")
+
     def callx(self, e, env):
         fn = e.func
-        if e.keywords:
-            self.out(e, "keyword arguments")
-        args = [self.ev(a, env) for a in e.args]
-        if isinstance(fn, ast.Name):
+        kw = {k.arg: self.ev(k.value, env) for k in e.keywords}
+        if None in kw:
+            self.out(e, "** arguments")
+        args = []
+        for a in e.args:
+            if isinstance(a, ast.Starred):
+                args.extend(self.iterate(self.ev(a.value, env), a))
+            else:
+                args.append(self.ev(a, env))
+        if isinstance(fn, ast.Name) and fn.id not in env and fn.id not in self.module.functions and fn.id not in self.module.assigns:
             n = fn.id
+            if kw and not (n in ("sorted", "min", "max") and set(kw) <= {"key", "reverse", "default"}):
+                self.out(e, "keyword arguments")
             if n in ("dict", "OrderedDict"):
                 if not args:
                     return {}
@@ -287,49 +457,63 @@ class ClosedFold:
             if n == "frozenset":
                 return frozenset(args[0]) if args else frozenset()
             if n == "list":
-                return list(args[0]) if args else []
+                return list(self.iterate(args[0], e)) if args else []
+            if n == "tuple":
+                return tuple(self.iterate(args[0], e)) if args else ()
             if n == "len":
                 return len(args[0])
+            if n == "object":
+                return object()
+            if n == "next":
+                seq = self.iterate(args[0], e)
+                if seq:
+                    return seq[0]
+                if len(args) > 1:
+                    return args[1]
+                raise FoldRaise(e, "StopIteration")
+            if n == "iter":
+                return self.iterate(args[0], e)
+            if n in ("any", "all"):
+                return (any if n == "any" else all)(self.iterate(args[0], e))
+            if n == "enumerate":
+                return list(enumerate(self.iterate(args[0], e), *args[1:]))
+            if n == "zip":
+                return list(zip(*[self.iterate(a, e) for a in args]))
             if n == "sorted":
-                return sorted(args[0], key=lambda x: (int(x[0]),) if isinstance(x, tuple) else int(x))
+                seq = self.iterate(args[0], e)
+                key = kw.get("key")
+                keyf = (lambda x: self.apply(key, [x], e)) if key is not None else (lambda x: (int(x[0]),) if isinstance(x, tuple) else int(x))
+                return sorted(seq, key=keyf, reverse=bool(kw.get("reverse", False)))
             if n in ("min", "max"):
-                return (min if n == "min" else max)(args[0] if len(args) == 1 else args)
+                seq = self.iterate(args[0], e) if len(args) == 1 else args
+                key = kw.get("key")
+                f2 = min if n == "min" else max
+                if not seq and "default" in kw:
+                    return kw["default"]
+                return f2(seq, key=(lambda x: self.apply(key, [x], e))) if key is not None else f2(seq)
             if n == "range":
                 return list(range(*args))
+            if n == "int":
+                return int(args[0])
+            if n == "isinstance":
+                self.out(e, "isinstance")
             if n == "Exception":
                 return ("exception", args)
             self.out(e, "call")
+        if kw:
+            self.out(e, "keyword arguments")
         if isinstance(fn, ast.Attribute):
-            d = dotted(fn)
-            if d and d.startswith(self.enum_name + ".") and d.split(".", 1)[1] in self.funcs:
-                return self.call(self.funcs[d.split(".", 1)[1]])  # evaluated afresh: new dict / set objects
-            o = self.ev(fn.value, env)
-            m = fn.attr
-            if isinstance(o, dict) and m in ("items", "keys", "values", "pop", "get", "copy", "popitem"):
-                if m == "items":
-                    return list(o.items())
-                if m == "keys":
-                    return list(o.keys())
-                if m == "values":
-                    return list(o.values())
-                if m == "copy":
-                    return dict(o)
-                try:
-                    return getattr(o, m)(*args)
-                except KeyError as ex:
-                    raise FoldRaise(e, "KeyError: %s" % ex)
-            if isinstance(o, set) and m in ("discard", "remove", "add", "copy", "issubset", "union", "difference"):
-                try:
-                    return getattr(o, m)(*args)
-                except KeyError as ex:
-                    raise FoldRaise(e, "KeyError: %s" % ex)
-            if isinstance(o, list) and m in ("append", "extend", "pop", "index", "remove", "insert"):
-                try:
-                    return getattr(o, m)(*args)
-                except (ValueError, IndexError) as ex:
-                    raise FoldRaise(e, "%s: %s" % (type(ex).__name__, ex))
-            self.out(e, "method call")
-        self.out(e, "call")
+            base = None
+            if isinstance(fn.value, ast.Name) and fn.value.id == self.enum_name and fn.value.id not in env:
+                base = self.enumcls
+            else:
+                base = self.ev(fn.value, env)
+            if base is self.enumcls:
+                if fn.attr in self.funcs:
+                    return self.call_node(self.funcs[fn.attr].node, args, {})
+                self.out(e, "enum method")
+            return self.method(base, fn.attr, args, e)
+        return self.apply(self.ev(fn, env), args, e)
 
 
 def _as_load(t):
@@ -355,8 +539,8 @@ def run(ctx):
     ctx.floor("dependency_edges", 40)
     ctx.floor("parse_calls", 1)
     ctx.floor("section_reads", 25)
-    ctx.floor("entry_list_uses", 2)
-    ctx.floor("parse_read_attrs", 4)
+    if "simulated_orders" in ctx.counts or not ctx.findings:
+        ctx.floor("simulated_orders", 12)   # skipped only when the load order itself is already reported as broken
     ctx.assume("TypeMapItem(x) raises ValueError for a type code outside the enumeration, so every MapItem carries one of the 21 members")
     ctx.assume("a map list names every type at most once (format requirement); duplicates are not decided (sorted() is stable)")
     positive_control(ctx)
@@ -378,21 +562,16 @@ def _constant_rank(tm):
 
 
 def positive_control(ctx):
-    """one seeded violation per run (in memory): with every rank equal the order rule must fire"""
+    """one seeded violation per run: the order judge must fire when two types of the (folded) load order share a rank"""
     tm = ctx.mod(DEX_TYPES)
-    undo = _constant_rank(tm)
-    ctx.require(undo is not None, "positive control: no rank assignment in determine_load_order to seed")
+    s = Sink(ctx.repo)
     try:
-        s = Sink(ctx.repo)
-        try:
-            cmi = CMInfo(ctx.repo, Folder(ctx.repo))
-            check_order(s, tm, cmi, cmi.members)
-        except AnalysisError:
-            pass
-    finally:
-        undo()
+        cmi = CMInfo(ctx.repo, Folder(ctx.repo))
+        check_order(s, tm, cmi, cmi.members, seed_equal_ranks=True)
+    except AnalysisError:
+        pass
     fired = any(f[0].startswith("order/") for f in s.findings)
-    ctx.ob("positive-control", "seeded constant rank", fired, "order rule fires on the seeded violation")
+    ctx.ob("positive-control", "seeded equal ranks", fired, "order rule fires on the seeded violation")
     ctx.require(fired, "positive control did not fire: the load-order rule no longer detects equal ranks")
 
 
@@ -413,15 +592,21 @@ def core(ctx):
                   "map type code of %s is 0x%x in the repository, %s in the format document" % (
                       name, int(v), ("0x%x" % codes[name]) if name in codes else "absent"))
     deps, order = check_order(ctx, tm, cmi, members)
-    lst_attr = check_sorted_loop(ctx, repo, m, folder, cmi)
+    check_parse_sites(ctx, repo, m, cmi)
+    if order is None or set(order) != set(members.values()) or len(set(order.values())) != len(order):
+        raise_after = True
+        lst_attr = None
+    else:
+        raise_after = False
+        lst_attr = simulate_map_list(ctx, repo, m, folder, cmi, order)
     ctors = check_seeks(ctx, repo, m, folder, cmi, members)
     closures = check_dependencies(ctx, repo, m, tm, cmi, deps, ctors)
-    check_list_order(ctx, repo, m, cmi, lst_attr, closures)
-    check_entry_isolation(ctx, repo, m, cmi, lst_attr, closures)
+    if lst_attr is not None:
+        check_list_order(ctx, repo, m, cmi, lst_attr, closures)
 
 
 # ---- (1c) load order ----------------------------------------------------------------------
-def check_order(ctx, tm, cmi, members):
+def check_order(ctx, tm, cmi, members, seed_equal_ranks=False):
     enum = cmi.enum_cls
     fdep = enum.lookup("_get_dependencies")
     ford = enum.lookup("determine_load_order")
@@ -430,6 +615,7 @@ def check_order(ctx, tm, cmi, members):
     ctx.analysed(ford)
     funcs = {n: f for n, f in enum.methods.items()}
     fold = ClosedFold(tm, members, enum.name, funcs)
+    ctx.require(not fdep.params() and not ford.params(), "_get_dependencies / determine_load_order take parameters: not closed functions")
     try:
         deps = fold.call(fdep)
     except FoldRaise as r:
@@ -471,6 +657,10 @@ def check_order(ctx, tm, cmi, members):
                   "determine_load_order() raises on the repository's own table: %s" % r.text, node=r.node)
         return deps, None
     ctx.require(isinstance(order, dict), "determine_load_order() does not fold to a dict")
+    if seed_equal_ranks and len(order) >= 2:
+        ks = sorted(order, key=lambda k: order[k])
+        order = dict(order)
+        order[ks[-1]] = order[ks[0]]
     miss = sorted(nm(x) for x in allm - set(order))
     ctx.check("order/total", "determine_load_order", not miss, ford, "load order keys",
               "load order has no rank for %s: the sort key raises KeyError for such a map entry" % miss,
@@ -488,196 +678,6 @@ def check_order(ctx, tm, cmi, members):
                           "%s (rank %s) is parsed before its dependency %s (rank %s)" % (nm(t), order[t], nm(d), order[d]),
                           detail="rank %s < %s" % (order[d], order[t]))
     return deps, order
-
-
-# ---- (1a,b) the sorted parse loop ----------------------------------------------------------------
-def single_def(func, name, before=None):
-    """the unique assignment `name = <expr>` in func (else None / AnalysisError when ambiguous)"""
-    defs = []
-    for n in walk_no_nested(func.node):
-        if isinstance(n, ast.Assign):
-            for t in n.targets:
-                for x in ast.walk(t):
-                    if isinstance(x, ast.Name) and x.id == name and isinstance(x.ctx, ast.Store):
-                        defs.append(n if (len(n.targets) == 1 and t is x) else None)
-        elif isinstance(n, (ast.AugAssign, ast.AnnAssign, ast.For, ast.With, ast.NamedExpr)):
-            tg = n.target if not isinstance(n, ast.With) else None
-            if tg is not None:
-                for x in ast.walk(tg):
-                    if isinstance(x, ast.Name) and x.id == name:
-                        defs.append(None)
-    if len(defs) == 1 and defs[0] is not None:
-        return defs[0].value
-    if not defs:
-        return None
-    raise AnalysisError("%s: local %r is assigned more than once (def-use outside the fragment)" % (func.qualname, name))
-
-
-def resolve_local(func, e):
-    seen = 0
-    while isinstance(e, ast.Name) and seen < 5:
-        d = single_def(func, e.id)
-        if d is None:
-            return e
-        e = d
-        seen += 1
-    return e
-
-
-def check_sorted_loop(ctx, repo, m, folder, cmi):
-    ml = m.cls("MapList")
-    init = ml.lookup("__init__")
-    mi_cls = m.cls("MapItem")
-    parse = mi_cls.lookup("parse")
-    ctx.require(init is not None and parse is not None, "anchor vanished: MapList.__init__ / MapItem.parse")
-    ctx.analysed(init)
-    # every call of a zero-argument .parse() in the package
-    sites = []
-    for mod in repo.modules.values():
-        for f in mod.functions.values():
-            for n in walk_no_nested(f.node):
-                if isinstance(n, ast.Call) and isinstance(n.func, ast.Attribute) and n.func.attr == parse.name and not n.args and not n.keywords:
-                    if mod is m:
-                        sites.append((f, n))
-                    elif "MapItem" in mod.text or "MapList" in mod.text:
-                        raise AnalysisError("%s calls .parse() and mentions MapItem/MapList: receiver type not decidable" % f.loc(n))
-    ctx.count("parse_calls", len(sites))
-    loop = None
-    for f, n in sites:
-        inside = f is init
-        ctx.check("single-loop", "call of MapItem.parse in %s" % f.qualname, inside, f, n,
-                  "MapItem.parse() is called from %s: the item is parsed outside the sorted loop of MapList.__init__" % f.qualname, node=n)
-        if not inside:
-            continue
-        recv = n.func.value
-        p = parent(n)
-        lp = None
-        while p is not None and p is not init.node:
-            if isinstance(p, (ast.For, ast.While)) and lp is None:
-                lp = p
-            p = parent(p)
-        ok = isinstance(lp, ast.For) and isinstance(lp.target, ast.Name) and isinstance(recv, ast.Name) and recv.id == lp.target.id
-        ctx.check("single-loop", "parse receiver", ok, init, n,
-                  "MapItem.parse() is not called on the variable of a for-loop over the sorted map items", node=n)
-        if ok:
-            ctx.require(loop is None or loop is lp, "MapList.__init__: two parse loops")
-            loop = lp
-    ctx.require(loop is not None or ctx.__class__ is Sink or True, "")
-    if loop is None:
-        ctx.check("single-loop", "sorted parse loop", False, init, "MapList.__init__ parse loop",
-                  "MapList.__init__ has no loop that parses the map items")
-        return find_list_attr(init)
-    it_expr = resolve_local(init, loop.iter)
-    lst_attr0 = find_list_attr(init)
-    if isinstance(it_expr, ast.Attribute) and isinstance(it_expr.value, ast.Name) and it_expr.value.id == "self" and it_expr.attr == lst_attr0:
-        # in-place variant:  self.<list>.sort(key=...)  as a top-level statement before the loop, nothing appended in between
-        body = init.node.body
-        if loop in body:
-            li = body.index(loop)
-            for st in reversed(body[:li]):
-                c = st.value if isinstance(st, ast.Expr) else None
-                if isinstance(c, ast.Call) and isinstance(c.func, ast.Attribute) and c.func.attr == "sort" \
-                        and ast.unparse(c.func.value) == "self.%s" % lst_attr0 and not c.args:
-                    it_expr = ast.copy_location(ast.Call(func=ast.Name(id="sorted", ctx=ast.Load()), args=[c.func.value], keywords=c.keywords), c)
-                    break
-                if any(isinstance(x, ast.Attribute) and x.attr == lst_attr0 for x in ast.walk(st)):
-                    break
-    is_sorted = isinstance(it_expr, ast.Call) and isinstance(it_expr.func, ast.Name) and it_expr.func.id == "sorted" \
-        and single_def(init, "sorted") is None and "sorted" not in m.functions and "sorted" not in m.assigns
-    ctx.check("sorted-loop", "iteration order", is_sorted, init, loop.iter,
-              "the parse loop iterates %s, which is not the value of sorted(<map items>, key=load order): parse order follows the map list" % ast.unparse(loop.iter)[:80],
-              node=loop, detail="for %s in sorted(...)" % loop.target.id)
-    lst_attr = find_list_attr(init)
-    if not is_sorted:
-        return lst_attr
-    s = it_expr
-    # the sorted sequence is the list of all map items
-    src = resolve_local(init, s.args[0]) if s.args else None
-    ok = isinstance(src, ast.Attribute) and isinstance(src.value, ast.Name) and src.value.id == "self" and src.attr == lst_attr
-    ctx.check("sorted-loop", "sorted sequence", ok, init, s,
-              "sorted() is applied to %s, not to the list all MapItems were appended to (self.%s)" % (ast.unparse(s.args[0]) if s.args else "nothing", lst_attr),
-              node=s, detail="sorted(self.%s)" % lst_attr)
-    kws = {k.arg: k.value for k in s.keywords}
-    rev = kws.get("reverse")
-    ctx.check("sorted-loop", "ascending", rev is None or (isinstance(rev, ast.Constant) and rev.value is False), init,
-              s, "sorted(..., reverse=%s): dependencies would be parsed after their dependants" % (ast.unparse(rev) if rev is not None else ""), node=s)
-    key = kws.get("key")
-    if key is None:
-        ctx.check("sorted-loop", "sort key", False, init, s, "sorted() of the map items has no key: MapItem objects are not ordered by load order", node=s)
-        return lst_attr
-    key = resolve_local(init, key)
-    kfunc = None
-    if isinstance(key, ast.Lambda) and len(key.args.args) == 1:
-        kparam, kbody = key.args.args[0].arg, key.body
-    else:
-        raise AnalysisError("%s: sort key is not a one-parameter lambda (shape outside the fragment)" % init.loc(s))
-    # evaluate the key body abstractly on a MapItem
-    free = {x.id for x in ast.walk(kbody) if isinstance(x, ast.Name) and x.id != kparam}
-    lo_names = []
-    for nme in sorted(free):
-        d = single_def(init, nme)
-        if d is not None and isinstance(d, ast.Call) and is_load_order_call(d, cmi):
-            lo_names.append(nme)
-
-    def run(asg):
-        it = DexInterp(repo, folder, asg=dict(asg), construct=lambda c: c.name == "MapItem", inline_module=m)
-        st = StreamV("buff", index=0)
-        o = it.construct_obj(mi_cls, bind_ctor_args(mi_cls, st, Sym("cm")))
-        env = {kparam: o, "__func__": init}
-        for nme in free:
-            env[nme] = Sym("load_order") if nme in lo_names else Sym("free", nme)
-        return it.eval(kbody, env, init)
-
-    tslot = Sym("enum", cmi.enum_cls.name, slot_bits(0, 0, 2))
-    for asg, v in explore(run):
-        good = isinstance(v, Sym) and v.op == "index" and v.args[0] == Sym("load_order") and v.args[1] == tslot
-        ctx.check("sorted-loop", "key = load_order[type]", good, init, key,
-                  "sort key evaluates to %s; it must be determine_load_order()[<type field of the map entry>]" % show(v)[:120],
-                  node=key, detail="key(mi) = determine_load_order()[TypeMapItem(type slot)]")
-    # registration under the entry's own type, in the same loop, after parse
-    check_registration(ctx, repo, m, folder, cmi, init, loop, mi_cls, tslot)
-    return lst_attr
-
-
-def is_load_order_call(call, cmi):
-    d = dotted(call.func)
-    return d == "%s.determine_load_order" % cmi.enum_cls.name and not call.args
-
-
-def find_list_attr(init):
-    """self.<attr> that MapItem objects are appended to"""
-    def is_ctor(e):
-        return isinstance(e, ast.Call) and isinstance(e.func, ast.Name) and e.func.id == "MapItem"
-
-    for n in walk_no_nested(init.node):
-        if isinstance(n, ast.Call) and isinstance(n.func, ast.Attribute) and n.func.attr == "append":
-            tgt = n.func.value
-            if isinstance(tgt, ast.Attribute) and isinstance(tgt.value, ast.Name) and tgt.value.id == "self" and n.args:
-                a = n.args[0]
-                if is_ctor(a):
-                    return tgt.attr
-                if isinstance(a, ast.Name):
-                    # the nearest preceding assignment of that name in the same block
-                    st = n
-                    while st is not None and not isinstance(st, ast.stmt):
-                        st = parent(st)
-                    blk = parent(st)
-                    for fld in ("body", "orelse"):
-                        body = getattr(blk, fld, None)
-                        if isinstance(body, list) and st in body:
-                            for prev in reversed(body[: body.index(st)]):
-                                if isinstance(prev, ast.Assign) and any(isinstance(t, ast.Name) and t.id == a.id for t in prev.targets):
-                                    if is_ctor(prev.value):
-                                        return tgt.attr
-                                    break
-    raise AnalysisError("MapList.__init__: the list MapItem objects are appended to was not found")
-
-
-class _F:
-    """Func view used by resolve_local"""
-
-    def __init__(self, f):
-        self.node, self.qualname = f.node, f.qualname
 
 
 class _LoopInterp(DexInterp):
@@ -702,46 +702,280 @@ class _LoopInterp(DexInterp):
         return super()._h_method(it, recv, name, args, kwargs, e, func)
 
 
-def check_registration(ctx, repo, m, folder, cmi, init, loop, mi_cls, tslot):
-    ml = m.cls("MapList")
+# ---- (1,3b) permutation simulation of MapList.__init__ ----------------------------------------------------
+class _LocalFunc:
+    def __init__(self, node, env, func):
+        self.node, self.env, self.func = node, env, func
 
-    def run(asg):
-        it = _LoopInterp(repo, folder, asg=dict(asg), construct=lambda c: c.name == "MapItem", inline_module=m)
-        st = StreamV("buff", index=0)
-        o = it.construct_obj(mi_cls, bind_ctor_args(mi_cls, st, Sym("cm")))
-        slf = Obj(ml, "maplist")
-        for f in ml.methods.values():
-            pass
-        # attributes of self that hold the class manager
-        for n in walk_no_nested(init.node):
-            if isinstance(n, ast.Assign) and isinstance(n.value, ast.Name) and n.value.id in ("cm",):
-                for t in n.targets:
-                    if isinstance(t, ast.Attribute) and isinstance(t.value, ast.Name) and t.value.id == "self":
-                        slf.attrs[t.attr] = Sym("cm")
-        env = {"self": slf, loop.target.id: o, "cm": Sym("cm"), "__func__": init}
+
+class _GetItem:
+    def __init__(self, seq):
+        self.seq = seq
+
+
+class _SimInterp(DexInterp):
+    """executes MapList.__init__ on a concrete list of symbolic map entries: nested defs, sorted/list.sort with a key,
+    list(), bound __getitem__ are evaluated; MapItem.parse and ClassManager calls are recorded"""
+
+    def __init__(self, *a, order=None, enum_cls=None, order_func=None, parse_name="parse", **k):
+        super().__init__(*a, **k)
+        self.order, self.enum_cls, self.order_func, self.parse_name = order, enum_cls, order_func, parse_name
+        self.trace = []
+        self.entries = []
+
+    def exec_stmt(self, s, env, func):
+        if isinstance(s, ast.FunctionDef):
+            env[s.name] = _LocalFunc(s, env, func)
+            return
+        return super().exec_stmt(s, env, func)
+
+    def call_local(self, lf, args, kwargs):
+        from ..absint import _Return
+        env = dict(lf.env)
+        a = lf.node.args
+        params = [x.arg for x in a.posonlyargs + a.args]
+        for p_, v in zip(params, args):
+            env[p_] = v
+        for p_ in params[len(args):]:
+            if kwargs and p_ in kwargs:
+                env[p_] = kwargs[p_]
+        env["__func__"] = lf.func
         try:
-            it.exec_block(loop.body, env, init)
-        except Raised as r:
-            raise AnalysisError("parse loop body raises on an abstract path: %s" % r)
-        return it.trace, o
+            self.exec_block(lf.node.body, env, lf.func)
+        except _Return as r:
+            return r.value
+        return None
 
-    for asg, r in explore(run):
-        trace, o = r
-        kinds = [t[0] if t[0] != "cm" else "cm." + t[1] for t in trace]
-        regs = [t for t in trace if t[0] == "cm" and t[1] == cmi.add.name]
-        good = "parse" in kinds and len(regs) == 1 and kinds.index("parse") < kinds.index("cm." + cmi.add.name)
-        ctx.check("registration", "parse then add_type_item", good, init, "MapList.__init__ loop body",
-                  "each sorted entry must be parsed and then registered once through ClassManager.%s; loop body does %s" % (cmi.add.name, kinds),
-                  detail="loop body: %s" % kinds)
-        if regs:
-            a = regs[0][2]
-            good = len(a) >= 3 and a[0] == tslot and a[1] is o
-            ctx.check("registration", "registered under own type", good, init, "%s(...) arguments" % cmi.add.name,
-                      "the parsed item must be registered under the type field of its own map entry; arguments are %s" % show(a)[:160],
-                      detail="add_type_item(type of mi, mi, mi's item)")
-            good = len(a) >= 3 and (a[2] == Sym("parsed-item") or isinstance(a[2], Obj))
-            ctx.check("registration", "registered item", good, init, "%s(...) item argument" % cmi.add.name,
-                      "the registered object is %s, not the item the entry parsed" % (show(a[2])[:80] if len(a) >= 3 else "missing"))
+    def call_value(self, callee, name, args, kwargs, e, env, func):
+        if isinstance(callee, _LocalFunc):
+            return self.call_local(callee, args, kwargs)
+        if isinstance(callee, _GetItem):
+            k = args[0].value() if isinstance(args[0], Bits) and args[0].is_const() else args[0]
+            return callee.seq[k]
+        return super().call_value(callee, name, args, kwargs, e, env, func)
+
+    def e_Attribute(self, e, env, func):
+        if e.attr == "__getitem__":
+            base = self.eval(e.value, env, func)
+            if isinstance(base, (list, tuple, dict)):
+                return _GetItem(base)
+        return super().e_Attribute(e, env, func)
+
+    def _sort(self, seq, kwargs, e, env, func):
+        key = (kwargs or {}).get("key")
+        rev = (kwargs or {}).get("reverse", False)
+        if not isinstance(rev, bool):
+            return None
+        keys = []
+        for x in seq:
+            kv = x if key is None else self.call_value(key, None, [x], {}, e, env, func)
+            kv = kv.value() if isinstance(kv, Bits) and kv.is_const() else kv
+            if not (isinstance(kv, int) and not isinstance(kv, Bits)):
+                return None
+            keys.append(int(kv))
+        idx = sorted(range(len(seq)), key=keys.__getitem__, reverse=rev)
+        return [seq[i] for i in idx]
+
+    def _h_call(self, it, name, callee, args, kwargs, e, func):
+        if name == "sorted" and not isinstance(callee, Ref) and args:
+            seq = self.concrete_iter(args[0])
+            if seq is not None:
+                r = self._sort(list(seq), kwargs, e, None, func)
+                if r is not None:
+                    return r
+        if name in ("list", "tuple") and not isinstance(callee, Ref) and len(args) == 1 and isinstance(args[0], (list, tuple, range)):
+            return list(args[0]) if name == "list" else tuple(args[0])
+        return super()._h_call(it, name, callee, args, kwargs, e, func)
+
+    def _h_method(self, it, recv, name, args, kwargs, e, func):
+        if isinstance(recv, list) and name == "sort" and not args:
+            r = self._sort(list(recv), kwargs, e, None, func)
+            if r is not None:
+                recv[:] = r
+                return None
+        if isinstance(recv, Ref) and recv.kind == "class" and recv.obj is self.enum_cls and name == self.order_func:
+            return dict(self.order)
+        if isinstance(recv, Obj) and recv.cls is not None and recv.cls.name == "MapItem" and name == self.parse_name and not args:
+            snap = {k: v for k, v in recv.attrs.items()}
+            self.trace.append(("parse", recv, snap))
+            for k, v in list(recv.attrs.items()):
+                if v is None and k == "item":
+                    recv.attrs[k] = Obj(None, "parsed-item")
+            return None
+        if isinstance(recv, Sym) and recv.op == "cm":
+            self.trace.append(("cm", name, list(args)))
+        if isinstance(recv, Obj) and recv.cls is not None and recv.cls.lookup(name) is None and name not in recv.attrs:
+            alias = recv.cls.lookup_attr(name)
+            if isinstance(alias, ast.Name) and recv.cls.lookup(alias.id) is not None:
+                return self.call_function(recv.cls.lookup(alias.id), args, kwargs, recv=recv)
+        return super()._h_method(it, recv, name, args, kwargs, e, func)
+
+
+def _norm_value(v, entry_start, base):
+    """printable form of an attribute value with byte sources re-based to the entry's own start"""
+    if isinstance(v, Bits):
+        if v.is_const():
+            c = v.value()
+            return "SELF_START" if c == entry_start else "int %d" % c
+        out = []
+        for b in v.b[: max(v.width(), 1)]:
+            if isinstance(b, tuple):
+                out.append("%s%d.%d" % (b[0], b[1] - base - entry_start, b[2]))
+            else:
+                out.append(str(b))
+        return "bits(" + ",".join(out) + ")"
+    if isinstance(v, bool) or v is None:
+        return repr(v)
+    if isinstance(v, int):
+        return "SELF_START" if v == entry_start else "int %d" % v
+    if isinstance(v, StreamV):
+        return "<stream>"
+    if isinstance(v, Obj):
+        return "<%s>" % (v.cls.name if v.cls else v.name)
+    if isinstance(v, (list, tuple)):
+        return "[" + ", ".join(_norm_value(x, entry_start, base) for x in v) + "]"
+    if isinstance(v, Lin):
+        terms = sorted("%d*%s" % (c, _norm_value(a, entry_start, base)) for a, c in v.terms.items())
+        return "lin(" + " + ".join(terms) + " + %d)" % v.const
+    if isinstance(v, Sym):
+        return "%s(%s)" % (v.op, ", ".join(_norm_value(a, entry_start, base) for a in v.args))
+    if isinstance(v, dict):
+        return "{" + ", ".join("%s: %s" % (show(k), _norm_value(x, entry_start, base)) for k, x in v.items()) + "}"
+    return show(v)[:80]
+
+
+def simulate_map_list(ctx, repo, m, folder, cmi, order):
+    """MapList.__init__ is executed abstractly on map lists of three entries of distinct types, in all six orders.
+    -> name of the attribute that holds the entry list"""
+    import itertools
+    ml = m.cls("MapList")
+    init = ml.lookup("__init__")
+    mi_cls = m.cls("MapItem")
+    parse = mi_cls.lookup("parse")
+    ctx.require(init is not None and parse is not None, "anchor vanished: MapList.__init__ / MapItem.parse")
+    ctx.analysed(init)
+    ford = cmi.enum_cls.lookup("determine_load_order")
+    stride = spec.fixed_size("map_item")
+    names = {int(v): k for k, v in cmi.members.items()}
+    by_rank = sorted((r, t) for t, r in order.items() if names.get(int(t)) not in ("MAP_LIST",))
+    ctx.require(len(by_rank) >= 6, "fewer than six ranked map types")
+    picks = [by_rank[0][1], by_rank[len(by_rank) // 2][1], by_rank[-1][1]], [by_rank[1][1], by_rank[len(by_rank) // 3][1], by_rank[-2][1]]
+    lst_attrs = set()
+    snapshots = {}
+    n_runs = 0
+    for triple in picks:
+        if len({int(t) for t in triple}) < 3:
+            continue
+        expected = [names[int(t)] for t in sorted(triple, key=lambda t: order[t])]
+        for perm in itertools.permutations(triple):
+            asg0 = {}
+            for i in range(32):
+                asg0[("s", i // 8, i % 8)] = (3 >> i) & 1 if i < 32 else 0
+            for k, t in enumerate(perm):
+                for i in range(16):
+                    asg0[("s", 4 + stride * k + i // 8, i % 8)] = (int(t) >> i) & 1
+
+            def run(asg, asg0=asg0):
+                it = _SimInterp(repo, folder, asg={**asg0, **asg}, construct=lambda c: c.name == "MapItem", inline_module=m,
+                                order=order, enum_cls=cmi.enum_cls, order_func=ford.name, parse_name=parse.name)
+                st = StreamV("buff", index=0)
+                o = Obj(ml, "maplist")
+                args = []
+                for p in init.params()[1:]:
+                    args.append(Sym("cm") if p in ("cm",) else st if p in ("buff", "buf") else 0 if p in ("off", "offset") else Sym("param", p))
+                it.call_function(init, args, recv=o)
+                return it, o, st
+
+            for asg, r in explore(run, max_paths=64):
+                if isinstance(r, Raised):
+                    raise AnalysisError("MapList.__init__ raises on a three-entry map list (%s): %s" % ([names[int(t)] for t in perm], r))
+                it, o, st = r
+                n_runs += 1
+                entries = [x for c, x, a in it.new_log if c.name == "MapItem"]
+                if len(entries) != 3:
+                    raise AnalysisError("MapList.__init__ builds %d MapItems for a map list of three entries (shape outside the fragment)" % len(entries))
+                start = {id(x): 4 + stride * k for k, x in enumerate(entries)}
+                tname = {}
+                for x in entries:
+                    ty = [v for v in x.attrs.values() if isinstance(v, EnumVal) and v.enum == cmi.enum_cls.name]
+                    if len(ty) != 1:
+                        raise AnalysisError("MapItem: the attribute holding the entry's type was not identified in the simulation")
+                    tname[id(x)] = ty[0].member
+                for a_, v_ in o.attrs.items():
+                    if isinstance(v_, list) and len(v_) == 3 and all(any(x is y for y in entries) for x in v_):
+                        lst_attrs.add(a_)
+                parses = [t for t in it.trace if t[0] == "parse"]
+                seq = [tname.get(id(t[1]), "?") for t in parses]
+                if not parses:
+                    raise AnalysisError("the simulation of MapList.__init__ never reaches MapItem.parse (an opaque value decides the parse loop)")
+                inst = "map list order %s" % [names[int(t)] for t in perm]
+                ctx.check("parse-order", inst, seq == expected, init, "parse order for map order %s" % "/".join(names[int(t)] for t in perm),
+                          "a map list listing its entries as %s is parsed in the order %s; load order (and every other permutation) requires %s "
+                          "-- parse order follows the map list" % ([names[int(t)] for t in perm], seq, expected),
+                          detail="parsed as %s" % seq)
+                # registration: after parse(entry), before the next parse, add_type_item(type of entry, entry, ...)
+                pos = [i for i, t in enumerate(it.trace) if t[0] == "parse"] + [len(it.trace)]
+                for j, pt in enumerate(parses):
+                    seg = it.trace[pos[j] + 1: pos[j + 1]]
+                    regs = [t for t in seg if t[0] == "cm" and t[1] == cmi.add.name]
+                    ent = pt[1]
+                    good = len(regs) == 1 and len(regs[0][2]) >= 3 and isinstance(regs[0][2][0], EnumVal) and regs[0][2][0].member == tname[id(ent)] \
+                        and regs[0][2][1] is ent
+                    if not good and regs and not all(isinstance(r_[2][0], EnumVal) for r_ in regs if r_[2]):
+                        raise AnalysisError("registration type of a parsed entry evaluates to an opaque term: %s" % show(regs[0][2])[:100])
+                    ctx.check("registration", "%s: %s" % (inst, tname[id(ent)]), good, init, "registration of the %s entry" % tname[id(ent)],
+                              "after parsing the %s entry MapList.__init__ registers %s; it must register that entry once under its own type before the next entry is parsed" % (
+                                  tname[id(ent)], [(show(r_[2][0]) if r_[2] else "?") for r_ in regs] or "nothing"),
+                              detail="add_type_item(%s, entry, item)" % tname[id(ent)])
+                    # state of the entry at its parse: a function of its own bytes only
+                    snap = {a_: _norm_value(v_, start[id(ent)], st.base) for a_, v_ in pt[2].items()}
+                    key = tname[id(ent)]
+                    if key not in snapshots:
+                        snapshots[key] = (snap, inst)
+                    else:
+                        ref, ref_inst = snapshots[key]
+                        for a_ in sorted(set(ref) | set(snap)):
+                            if ref.get(a_) != snap.get(a_):
+                                ctx.check("entry-isolation", "%s.%s" % (key, a_), False, init, "MapItem.%s depends on the map order" % a_,
+                                          "when its parse() starts, attribute %s of the %s entry is %s with %s but %s with %s: the entry's state "
+                                          "depends on its position / neighbours in the map list, not only on its own fields" % (
+                                              a_, key, snap.get(a_), inst, ref.get(a_), ref_inst))
+                ctx.count("simulated_orders")
+    ctx.ob("entry-isolation", "entry state at parse time", True,
+           "identical for every permutation (attributes %s, byte sources re-based to the entry start)" % sorted({a for s_, _ in snapshots.values() for a in s_}))
+    if len(lst_attrs) != 1:
+        raise AnalysisError("the attribute of MapList holding the entry list was not identified (%s)" % sorted(lst_attrs))
+    return lst_attrs.pop()
+
+
+def check_parse_sites(ctx, repo, m, cmi):
+    """MapItem.parse is called only from MapList.__init__ or helpers it calls on self"""
+    ml = m.cls("MapList")
+    init = ml.lookup("__init__")
+    parse = m.cls("MapItem").lookup("parse")
+    reach, work = set(), [init]
+    while work:
+        f = work.pop()
+        if f.qualname in reach:
+            continue
+        reach.add(f.qualname)
+        for n in walk_no_nested(f.node):
+            if isinstance(n, ast.Call) and isinstance(n.func, ast.Attribute) and isinstance(n.func.value, ast.Name) and n.func.value.id == "self":
+                g = ml.lookup(n.func.attr)
+                if g is not None:
+                    work.append(g)
+    n_sites = 0
+    for mod in repo.modules.values():
+        for f in mod.functions.values():
+            for n in ast.walk(f.node):
+                if isinstance(n, ast.Call) and isinstance(n.func, ast.Attribute) and n.func.attr == parse.name and not n.args and not n.keywords:
+                    if mod is m:
+                        n_sites += 1
+                        ctx.check("single-loop", "call of MapItem.parse in %s" % f.qualname, f.qualname in reach, f, n,
+                                  "MapItem.parse() is also called from %s, outside the load-ordered parse of MapList.__init__" % f.qualname, node=n)
+                    elif "MapItem" in mod.text or "MapList" in mod.text:
+                        raise AnalysisError("%s calls .parse() and mentions MapItem/MapList: receiver type not decidable" % f.loc(n))
+    ctx.count("parse_calls", n_sites)
 
 
 # ---- (2) cursor independence ------------------------------------------------------------------------
@@ -851,6 +1085,13 @@ def check_seeks(ctx, repo, m, folder, cmi, members):
                 break
         seeks = [ev for ev in log[i:] if ev[0] == "seek"]
         good = start is not None and bool(seeks)
+        if seeks:
+            op = []
+            prov(seeks[-1][1], opaque=op)
+            if op:
+                raise AnalysisError("MapList.__init__: the position the stream is left at after a map entry is an opaque term (%s)" % op[0])
+        if start is None:
+            raise AnalysisError("MapList.__init__: the start position of a map entry is not taken with tell() (shape outside the fragment)")
         if good:
             it0 = DexInterp(repo, folder)
             want = it0.binop(ast.Add(), start, stride, init.node)
@@ -980,217 +1221,6 @@ def check_list_order(ctx, repo, m, cmi, lst_attr, closures):
                "%s[%s]%s" % (attr, key, " for %s" % guard if guard else "") if kind.startswith("by") else "%s.%s(...) registration order" % (attr, kind))
     readers = sorted(n for n, secs in cmi.direct.items() if "ORDER" in secs)
     ctx.ob("list-order", "registration-order readers", True, "read by ClassManager.%s" % ", ".join(readers) if readers else "no reader")
-
-
-# ---- (3b) entry isolation: nothing that depends on the position of an entry in the list reaches its parse --------
-def _mentions(e, names=(), attr=None):
-    for x in ast.walk(e):
-        if isinstance(x, ast.Name) and x.id in names:
-            return True
-        if attr is not None and isinstance(x, ast.Attribute) and x.attr == attr and isinstance(x.value, ast.Name) and x.value.id == "self":
-            return True
-    return False
-
-
-def _root_name(e):
-    while isinstance(e, (ast.Attribute, ast.Subscript, ast.Call)):
-        e = e.func if isinstance(e, ast.Call) else e.value
-    return e.id if isinstance(e, ast.Name) else None
-
-
-def _pos(n):
-    return (getattr(n, "lineno", 0), getattr(n, "col_offset", 0))
-
-
-def check_entry_isolation(ctx, repo, m, cmi, lst_attr, closures):
-    ml = m.cls("MapList")
-    init = ml.lookup("__init__")
-    mi_cls = m.cls("MapItem")
-    parse = mi_cls.lookup("parse")
-    # (a) every use of the entry list while the map is read and parsed
-    n_uses = 0
-    for n in walk_no_nested(init.node):
-        if not (isinstance(n, ast.Attribute) and n.attr == lst_attr and isinstance(n.ctx, ast.Load)
-                and isinstance(n.value, ast.Name) and n.value.id == "self"):
-            continue
-        n_uses += 1
-        p = parent(n)
-        kind = None
-        if isinstance(p, ast.Attribute) and p.value is n and isinstance(parent(p), ast.Call) and parent(p).func is p:
-            if p.attr == "append":
-                kind = "append"
-            elif p.attr == "sort":
-                kind = "sort"
-        elif isinstance(p, ast.Call) and isinstance(p.func, ast.Name) and p.func.id == "sorted" and p.args and p.args[0] is n:
-            kind = "sorted"
-        elif isinstance(p, ast.For) and p.iter is n and isinstance(p.target, ast.Name) and any(
-                isinstance(c, ast.Call) and isinstance(c.func, ast.Attribute) and c.func.attr == parse.name and not c.args
-                and isinstance(c.func.value, ast.Name) and c.func.value.id == p.target.id for s0 in p.body for c in ast.walk(s0)):
-            kind = "parse loop (its order is judged by the sorted-loop rule)"
-        ctx.check("entry-isolation", "use of self.%s: %s" % (lst_attr, ast.unparse(p)[:50]), kind is not None, init,
-                  "positional use of the map entry list: %s" % _shape(p, n),
-                  "while the map is read, MapList.__init__ uses the entry list as `%s`: besides append of the entry just read and the "
-                  "load-order sort, any access (index, slice, emptiness/length test, iteration, zip/enumerate) exposes the position of an "
-                  "entry in the map list" % ast.unparse(p)[:80], node=n, detail="self.%s used for %s" % (lst_attr, kind))
-    ctx.count("entry_list_uses", n_uses)
-    # (b) the reading loop: nothing carried from one entry to the next reaches an entry
-    read_loop, cur = None, set()
-    for n in walk_no_nested(init.node):
-        if isinstance(n, ast.Assign) and isinstance(n.value, ast.Call) and isinstance(n.value.func, ast.Name) and n.value.func.id == mi_cls.name:
-            for t in n.targets:
-                if isinstance(t, ast.Name):
-                    cur.add(t.id)
-            p = parent(n)
-            while p is not None and p is not init.node and not isinstance(p, (ast.For, ast.While)):
-                p = parent(p)
-            if isinstance(p, (ast.For, ast.While)):
-                read_loop = p
-    ctx.require(read_loop is not None and cur, "MapList.__init__: the loop reading the map entries was not found")
-    body_nodes = [x for s0 in read_loop.body for x in ast.walk(s0)]
-    stores, loads = {}, {}
-    for x in body_nodes:
-        if isinstance(x, ast.Name):
-            (stores if isinstance(x.ctx, ast.Store) else loads).setdefault(x.id, []).append(x)
-    aug = {x.target.id for x in body_nodes if isinstance(x, ast.AugAssign) and isinstance(x.target, ast.Name)}
-    target_names = {x.id for x in ast.walk(read_loop.target) if isinstance(x, ast.Name)} if isinstance(read_loop, ast.For) else set()
-    carried = set(aug)
-    for nme, sts in stores.items():
-        if nme in target_names or nme not in loads:
-            continue
-        first_store = min(_pos(x) for x in sts)
-        # a read before the first write of the iteration sees the value of the previous iteration; the right-hand
-        # side of the first assignment itself is evaluated before the store
-        for ld in loads[nme]:
-            st_stmt = next((s0 for s0 in body_nodes if isinstance(s0, ast.Assign) and any(t is x for t in ast.walk(s0) for x in sts)
-                            and _pos(s0) <= first_store), None)
-            if _pos(ld) < first_store or (st_stmt is not None and any(y is ld for y in ast.walk(st_stmt.value))):
-                carried.add(nme)
-    for x in body_nodes:
-        bad = None
-        if isinstance(x, ast.Call) and isinstance(x.func, ast.Attribute):
-            recv = x.func.value
-            root = _root_name(recv)
-            args = list(x.args) + [k.value for k in x.keywords]
-            recv_is_other_entry = (root in carried and root not in cur) or _mentions(recv, attr=lst_attr)
-            if recv_is_other_entry and x.func.attr not in ("append", "sort") and (args or x.func.attr.startswith("set")):
-                bad = "calls %s on an entry other than the one just read" % ast.unparse(x)[:70]
-            elif root in cur and any(_mentions(a, carried - cur, lst_attr) for a in args):
-                bad = "passes data carried over from another entry to the entry just read: %s" % ast.unparse(x)[:70]
-            elif x.func.attr == "seek" and any(_mentions(a, carried - cur, lst_attr) for a in args):
-                bad = "positions the stream with data carried over from another entry: %s" % ast.unparse(x)[:70]
-        elif isinstance(x, ast.Call) and isinstance(x.func, ast.Name) and x.func.id == mi_cls.name:
-            if any(_mentions(a, carried, lst_attr) for a in list(x.args) + [k.value for k in x.keywords]):
-                bad = "constructs the entry with data carried over from another entry: %s" % ast.unparse(x)[:70]
-        elif isinstance(x, ast.Assign):
-            for t in x.targets:
-                if isinstance(t, ast.Attribute):
-                    root = _root_name(t.value)
-                    if (root in carried and root not in cur) or _mentions(t.value, attr=lst_attr):
-                        bad = "stores into an entry other than the one just read: %s" % ast.unparse(x)[:70]
-                    elif root in cur and _mentions(x.value, carried - cur, lst_attr):
-                        bad = "stores data carried over from another entry into the entry just read: %s" % ast.unparse(x)[:70]
-        if bad:
-            ctx.check("entry-isolation", "reading loop", False, init, "reading loop: %s" % bad.split(":")[0],
-                      "the map-reading loop of MapList.__init__ %s -- a map entry then depends on its neighbour in the list" % bad, node=x)
-    ctx.ob("entry-isolation", "reading loop carried variables", True,
-           "carried across iterations: %s; none reaches an entry, a constructor or a seek" % (sorted(carried) or "none"))
-    # (c) every attribute MapItem.parse (and the self-helpers it calls) reads derives from the entry's own fields
-    helpers, work = {}, [parse]
-    while work:
-        f = work.pop()
-        if f.qualname in helpers:
-            continue
-        helpers[f.qualname] = f
-        for n in walk_no_nested(f.node):
-            if isinstance(n, ast.Call) and isinstance(n.func, ast.Attribute) and isinstance(n.func.value, ast.Name) and n.func.value.id == "self":
-                g = mi_cls.lookup(n.func.attr)
-                if g is not None:
-                    work.append(g)
-    read_attrs = set()
-    for f in helpers.values():
-        for n in walk_no_nested(f.node):
-            if isinstance(n, ast.Attribute) and isinstance(n.ctx, ast.Load) and isinstance(n.value, ast.Name) and n.value.id == "self" \
-                    and mi_cls.lookup(n.attr) is None:
-                read_attrs.add(n.attr)
-    ctx.count("parse_read_attrs", len(read_attrs))
-    # channels: methods (not the constructor) that store one of their parameters into such an attribute
-    channels = {}
-    for name, f in mi_cls.methods.items():
-        if name == "__init__":
-            continue
-        params = set(f.params()[1:])
-        for n in walk_no_nested(f.node):
-            if isinstance(n, ast.Assign):
-                for t in n.targets:
-                    if isinstance(t, ast.Attribute) and isinstance(t.value, ast.Name) and t.value.id == "self" and t.attr in read_attrs \
-                            and _mentions(n.value, params):
-                        channels.setdefault(name, set()).add(t.attr)
-    cg = CallGraph(repo)
-    scope = {init.qualname: init}
-    for tname, clo in closures.items():
-        for q, (f, pr, par) in clo.items():
-            if f.module is m:
-                scope.setdefault(q, f)
-    for q, f in sorted(scope.items()):
-        types = cg.local_types(f)
-        for n in ast.walk(f.node):
-            if isinstance(n, ast.Call) and isinstance(n.func, ast.Attribute) and n.func.attr in channels:
-                callees = [c for c, pr in cg.resolve_method(n.func, f, types)]
-                if not any(c.cls is mi_cls for c in callees):
-                    continue
-                recv = n.func.value
-                # a write made after the entry's own parse() in the same iteration of the sorted loop cannot reach its parse
-                if f is init and _after_parse_in_loop(init, n, parse.name):
-                    continue
-                own = isinstance(recv, ast.Name) and (recv.id in cur or recv.id == "self") and \
-                    all(isinstance(x, ast.Constant) or (isinstance(x, ast.Name) and x.id == recv.id)
-                        for a in n.args for x in ast.walk(a) if isinstance(x, (ast.Name, ast.Constant)))
-                ctx.check("entry-isolation", "%s calls MapItem.%s" % (q, n.func.attr), own, f,
-                          "MapItem.%s written from outside via %s" % ("/".join(sorted(channels[n.func.attr])), n.func.attr),
-                          "MapItem.parse reads self.%s, which %s sets through %s(%s): the value does not derive from the entry's own "
-                          "fields (type, size, offset) but from what the caller knows about other entries" % (
-                              "/".join(sorted(channels[n.func.attr])), q, n.func.attr, ", ".join(ast.unparse(a) for a in n.args)[:60]), node=n)
-            elif isinstance(n, ast.Assign):
-                for t in n.targets:
-                    if isinstance(t, ast.Attribute) and t.attr in read_attrs and not (isinstance(t.value, ast.Name) and t.value.id == "self"):
-                        ts = cg.expr_types(t.value, f, types)
-                        is_mi = any(c is mi_cls for k, c in ts) or (f.cls is ml and (_root_name(t.value) in cur or _mentions(t.value, attr=lst_attr)))
-                        if is_mi:
-                            ctx.check("entry-isolation", "%s stores MapItem.%s" % (q, t.attr), False, f,
-                                      "MapItem.%s written from outside" % t.attr,
-                                      "MapItem.parse reads self.%s, which %s assigns from outside (%s)" % (t.attr, q, ast.unparse(n)[:60]), node=n)
-    ctx.ob("entry-isolation", "attributes read by MapItem.parse", True,
-           "%s; setter channels into them: %s" % (sorted(read_attrs), {k: sorted(v) for k, v in channels.items()} or "none"))
-
-
-def _after_parse_in_loop(init, n, parse_name):
-    lp = parent(n)
-    while lp is not None and lp is not init.node and not isinstance(lp, (ast.For, ast.While)):
-        lp = parent(lp)
-    if not isinstance(lp, (ast.For, ast.While)):
-        return False
-    calls = [c for s0 in lp.body for c in ast.walk(s0) if isinstance(c, ast.Call) and isinstance(c.func, ast.Attribute)
-             and c.func.attr == parse_name and not c.args]
-    top = [s0 for s0 in lp.body if any(c is x for c in calls for x in ast.walk(s0))]
-    # the parse call must be a top-level statement of the loop body that precedes the statement containing n
-    for i, s0 in enumerate(lp.body):
-        if any(x is n for x in ast.walk(s0)):
-            return any(t in lp.body[:i] for t in top)
-    return False
-
-
-def _shape(p, n):
-    if isinstance(p, ast.Subscript):
-        return "subscript / slice"
-    if isinstance(p, (ast.If, ast.While, ast.BoolOp, ast.UnaryOp, ast.IfExp)):
-        return "emptiness test"
-    if isinstance(p, (ast.For, ast.comprehension)):
-        return "iteration in list order"
-    if isinstance(p, ast.Call):
-        return "passed to %s" % (ast.unparse(p.func)[:30])
-    if isinstance(p, ast.Attribute):
-        return "method .%s" % p.attr
-    return type(p).__name__
 
 
 # ---------------------------------------------------------------------------
